@@ -22,6 +22,7 @@ import PyamgV.Proofs.ExtC11XAirGmres
 import Mathlib.Analysis.Real.Sqrt
 import Mathlib.Algebra.Order.Ring.Rat
 import Mathlib.Algebra.Field.Rat
+import PyamgV.Proofs.ExtPy3ClassicalInterp
 
 /-! # C11 — classical interpolation and ideal restriction satisfy their defining equations
 
@@ -447,5 +448,49 @@ theorem rot_no_breakdown : NoBreakdown Arot brot Real.sqrt (1 / 10 ^ 12) 0 false
     · simp [sweepOf, padCols, hent, givStep, isZ, rotL, List.range_succ, smallK]; norm_num
     · simp [sweepOf, padCols, hent, givStep, isZ, rotL, List.range_succ, smallK]; norm_num
 end exampleE49
+
+/-! ## the Python wrappers as the SOURCE has them (extension E58, Proofs/ExtPy3ClassicalInterp.lean)
+
+`harness/py2lean3_classical.py` translates `direct_interpolation`, `classical_interpolation`,
+`injection_interpolation` and `one_point_interpolation` of pyamg/classical/interpolate.py from the working tree into
+`Generated/PyLogic3_classical.lean` on every run (sparse matrices opaque; every SciPy / NumPy operation and every native
+kernel call is an event with the identities of its arguments).  The theorems below are about these GENERATED
+definitions, evaluated by the kernel on finite grids of scenarios (`Model/ExtPy3ClassicalWorlds.lean`: A / C sparse or
+not, csr / csc (/ bsr), theta None / 0.25, norm min / abs, modified, by_val, block size 1 / 2, conversion failing).
+They tie the composition order of `Glue.apiClassical` / `apiDirect` (/ `...Theta`) to the source.  Partial: finite
+grids; the sparse operations themselves are opaque here (they are modelled in Model/ExtGlue.lean). -/
+/-- direct_interpolation: result / exception class and the whole trace -/
+restate generated_direct_trace_partial := PyamgV.ExtPy3ClassicalP.direct_refines_spec
+/-- classical_interpolation: result / exception class and the whole trace -/
+restate generated_classical_trace_partial := PyamgV.ExtPy3ClassicalP.classical_refines_spec
+/-- injection_interpolation: format dispatch, P from fresh NumPy arrays -/
+restate generated_injection_trace_partial := PyamgV.ExtPy3ClassicalP.injection_refines_spec
+/-- one_point_interpolation: the kernel reads A (by_val, CSR) or C, writes three fresh arrays -/
+restate generated_one_point_trace_partial := PyamgV.ExtPy3ClassicalP.one_point_refines_spec
+/-- classical_interpolation for ANY `splitting` value (universally quantified pass-through) on the grid -/
+restate generated_classical_any_splitting_partial := PyamgV.ExtPy3ClassicalP.classical_any_splitting
+/-- direct_interpolation for ANY `splitting` value on the grid -/
+restate generated_direct_any_splitting_partial := PyamgV.ExtPy3ClassicalP.direct_any_splitting
+/-- with theta given ANY `norm` string is handed on to classical_strength_of_connection unchanged -/
+restate generated_classical_any_norm_partial := PyamgV.ExtPy3ClassicalP.classical_any_norm
+/-- classical: copy -> eliminate_zeros -> remove_strong_FF_connections (modified only) -> eliminate_zeros -> multiply ->
+pass 1 -> pass 2 (with theta: the recomputed strength matrix instead of copy + eliminate_zeros) -/
+restate generated_classical_call_order_partial := PyamgV.ExtPy3ClassicalP.classical_call_order
+/-- direct: copy | strength -> eliminate_zeros -> multiply -> pass 1 -> pass 2 -/
+restate generated_direct_call_order_partial := PyamgV.ExtPy3ClassicalP.direct_call_order
+/-- the arrays each kernel receives: the working copy (`Cc.indptr, Cc.indices, Cc.data` -- all three of the copy) for
+`remove_strong_FF_connections`, the product `Cm` for the passes; pass 2 is told `modified` -/
+restate generated_interp_kernel_calls_partial := PyamgV.ExtPy3ClassicalP.interp_kernel_calls
+/-- no Python-level in-place operation targets `A`, `C` or `splitting` -/
+restate generated_interp_arguments_untouched_partial := PyamgV.ExtPy3ClassicalP.interp_arguments_untouched
+/-- no kernel receives an array of the caller's `C`; injection calls no kernel; one-point's outputs are fresh -/
+restate generated_interp_kernels_private_partial := PyamgV.ExtPy3ClassicalP.interp_kernels_private
+/-- invalid input raises `TypeError` before any kernel -/
+restate generated_interp_invalid_raises_partial := PyamgV.ExtPy3ClassicalP.interp_invalid_raises
+
+/-- non-vacuity: a valid modified scenario of the grid runs three kernels -/
+example : (PyamgV.ExtPy3Classical.kernelCalls (PyamgV.ExtPy3ClassicalW.runClassical
+    { spA := true, spC := true, fmtA := "csr", fmtC := "csr", theta := .none, norm := "min", modified := true }).2).length = 3 := by
+  decide +kernel
 
 end PyamgV.Props.C11
